@@ -50,7 +50,7 @@ def flags_all() -> Any:
 class Canary:
     """A well-behaved conversation: two keep-alive requests (or a tunnel echo) with its own origin."""
 
-    def __init__(self, rig: StepRig, kind: str, rng: random.Random, tag: str) -> None:
+    def __init__(self, rig: StepRig, kind: str, rng: random.Random, tag: str, transport: Optional[str] = None) -> None:
         self.rig, self.kind, self.tag = rig, kind, tag
         self.origin = rig.add_origin('127.0.%d.%d' % (rng.randint(0, 250), rng.randint(2, 250))) if kind != 'web' else None
         self.ao: Optional[conv.AutoOrigin] = None
@@ -58,7 +58,8 @@ class Canary:
             self.ao = conv.AutoOrigin(self.origin, 'CN', lambda req, name: [b'HTTP/1.1 200 OK\r\nContent-Length: 9\r\nX-Canary: %s\r\n\r\n' % req['hd'].get(b'x-req-id', b'?') + b'canary-ok'])
         if kind == 'reverse':
             c04._routes['B'] = b'http://%s/pb' % self.origin.hostport      # canary uses route /rb/, adversary /ra/
-        self.client = rig.add_client('unix')
+        # the canary arrives over a unix socket, an IPv4 or an IPv6 listener
+        self.client = rig.add_client(transport or rng.choice(['unix', 'unix', 'tcp', 'tcp6']))
         self.stage = 0
         self.oc: Any = None
         self.done = False
@@ -288,7 +289,7 @@ def run_idle_neighbour(case: Dict[str, Any]) -> Dict[str, Any]:
                 # own _run_forever) then falls before, into the middle of, or after its conversation depending on advance_at.
                 vc.advance(T + 1)
                 state['advanced'] = True
-                state['canary'] = Canary(rig, kind, rng, 'concurrent')
+                state['canary'] = Canary(rig, kind, rng, 'concurrent', transport='unix')     # (counted iterations: no kernel latency wanted)
             cn = state['canary']
             if cn is not None and not cn.done:
                 cn.act()
@@ -421,7 +422,83 @@ def run_reverse_upstream_fails_while_pending(case: Dict[str, Any]) -> Dict[str, 
     return {'viol': viol, 'nontrivial': True, 'sig': 'rufp/%s/%s/%s' % (sorted(adv.items()), kind, mode), 'obs': obs, 'sample': {'case': case}}
 
 
+def run_always_ready_neighbour(case: Dict[str, Any]) -> Dict[str, Any]:
+    """A connection that is 'ready' in every single loop round and never finishes: a client that fetched a large answer, read a
+    little of it, half-closed (its descriptor reports EOF from now on) and never reads again.  Connections accepted afterwards
+    are admitted and served all the same."""
+    rng = random.Random('c05ar:%s:%s' % (case['seed'], case['i']))
+    adv = case['adv']
+    kind = case['canary']
+    mode = case.get('mode', 'local')
+    base = baseline(kind, mode)
+    shim.S.reset()
+    rig = StepRig(flags_all(), mode)
+    viol: List[Dict[str, Any]] = []
+    obs: Dict[str, int] = {'class:always-ready-neighbour': 1, 'canary:' + kind: 1, 'mode:' + mode: 1}
+    try:
+        c04._routes.update({'A': None, 'B': None, 'A2': None})
+        o = rig.add_origin('127.0.%d.%d' % (rng.randint(0, 250), rng.randint(2, 250)))
+        hp = o.hostport
+        c = rig.add_client('tcp', rcvbuf=4096)
+        c.send(b'GET http://%s/big HTTP/1.1\r\nHost: %s\r\n\r\n' % (hp, hp))
+        box: Dict[str, Any] = {}
+
+        def acc() -> bool:
+            p = o.accept()
+            if p is not None:
+                box['oc'] = p
+            return 'oc' in box
+        rig.until(acc, [])
+        oc = box['oc']
+        rig.until(lambda: b'\r\n\r\n' in oc.rx, [oc])
+        body = G.coded(b'A', adv['size'])
+        data = b'HTTP/1.1 200 OK\r\nContent-Length: %d\r\n\r\n' % len(body) + body
+        sent = 0
+        for _ in range(6000):
+            n = oc.send(data[sent:sent + 262144])
+            if n > 0:
+                sent += n
+            rig.step()
+            if sent >= len(data):
+                break
+        c.pump(1024)
+        if adv['then'] == 'half-close':
+            c.shutdown_wr()
+        elif adv['then'] == 'keeps-sending':
+            c.send(b'X' * 10)
+        rig.step(5)
+        held = sum(monitors.client_buffer_depth(w) for w in rig.work_objs())
+        obs['adversary_output_still_queued'] = 1 if held > 0 else 0
+        for when in ('first', 'second'):
+            cn = Canary(rig, kind, rng, when)
+            for _ in range(8000):
+                if cn.done:
+                    break
+                cn.act()
+                rig.step()
+                if adv['then'] == 'keeps-sending' and rng.random() < 0.3:
+                    c.send(b'Y')
+            rig.settle([cn.client], quiet=4)
+            t = cn.transcript()
+            if not cn.done:
+                viol.append({'key': 'always-ready-neighbour|%s|canary-%s-never-completes' % (adv['then'], when), 'detail': {'adversary': adv, 'canary': kind, 'stage': cn.stage}})
+                break
+            elif t != base:
+                diffs = {k: monitors.diff_streams(base[k], t[k]) for k in base if base[k] != t[k]}
+                viol.append({'key': 'always-ready-neighbour|%s|canary-%s-differs:%s' % (adv['then'], when, ','.join(sorted(diffs))), 'detail': {'adversary': adv, 'diff': diffs}})
+            else:
+                obs['canary_after_equal'] = 1
+        obs['both_registered'] = 1
+    except LoopDied as e:
+        viol.append({'key': 'always-ready-neighbour|%s|loop-died:%s' % (adv['then'], e.where()), 'detail': {'adversary': adv, 'canary': kind, 'tb': e.tb[-1200:]}})
+    finally:
+        rig.close()
+    return {'viol': viol, 'nontrivial': True, 'sig': 'arn/%s/%s/%s' % (sorted(adv.items()), kind, mode), 'obs': obs, 'sample': {'case': case}}
+
+
 def run_case(case: Dict[str, Any]) -> Dict[str, Any]:
+    if case['adv']['class'] == 'always-ready-neighbour':
+        return run_always_ready_neighbour(case)
     if case['adv']['class'] == 'reverse-upstream-fails-while-pending':
         return run_reverse_upstream_fails_while_pending(case)
     if case['adv']['class'] == 'tls-front-silent':
@@ -641,6 +718,10 @@ def cases(tier: str, seed: int):
         yield mk({'class': 'reverse-upstream-fails-while-pending', 'upstream': ['refuse', 'unresolvable', 'reset-on-accept'][rep % 3],
                   'pending': rng.choice([0, 3000, 2000000, 8000000]), 'reader': rng.choice(['stalled', 'drains'])},
                  canary=['forward', 'tunnel', 'web'][(rep // 3) % 3], mode='local' if rep % 4 else 'remote')
+    # (4c3) a neighbour that is ready in every loop round and never finishes
+    for rep in range(16 if tier == 'quick' else 200):
+        yield mk({'class': 'always-ready-neighbour', 'size': rng.choice([8000000, 16000000]), 'then': ['half-close', 'keeps-sending'][rep % 2]},
+                 canary=CANARIES[rep % 4], mode='local' if rep % 3 else 'remote')
     # (4d) silent neighbours reaped by the idle sweep while the canary talks
     for rep in range(40 if tier == 'quick' else 400):
         yield mk({'class': 'idle-neighbour', 'idlers': rng.choice([1, 2, 3]), 'partial': rng.random() < 0.5, 'advance_at': rng.choice([0, 5, 20, 38, 39, 40])},
